@@ -509,7 +509,13 @@ func (ctx *Ctx) rloop(path []byte, node *node, tpl *Tpl, w io.Writer) {
 			}
 			// Mark RL as inuse and loop over var using inspector.
 			rl.stat = rlInuse
+			rl.err = nil
 			ctx.Err = v.ins.Loop(v.val, rl, &ctx.buf, ctx.bufS[1:]...)
+			if ctx.Err == nil && rl.err != nil {
+				ctx.Err = rl.err
+				rl.stat = rlFree
+				return
+			}
 
 			// Check for-else condition.
 			if rl.c == 0 {
